@@ -131,4 +131,12 @@ SUBS = [
         need={"msm-roster": 49, "4076": 1, "stub": 1, "defined-ok": 1, "defined-rejected": 1},
     ),
     Sub("implemented_full_payloads", o_full, plan=plan_full, rule="every implemented identity with a model-built body", need={"msm": 1}),
+    Sub(
+        "cold_start_concurrent_first_use",
+        __import__("pv.checks.c13", fromlist=["o_cold"]).o_cold,
+        strategy=__import__("pv.checks.c13", fromlist=["s_cold"]).s_cold,
+        examples=(1, 8),
+        rule="fresh interpreters in which several threads construct messages of implemented identities at once (identity dispatch built lazily must not depend on who comes first)",
+        sample=lambda c: {"payloads": [p[:40] for p in c["payloads"]], "threads": c["threads"], "children": c["children"]},
+    ),
 ]
